@@ -116,6 +116,11 @@ class History(object):
                     self.bad("operand-" + clause, detail)
             elif k == "sky_within":
                 pts, expect = rl.query_points(self.model, D, op["picks"])
+                for p_ in op.get("pixels", []):      # explicit level-D pixels (e.g. the ones an edit just moved)
+                    p_ = int(p_) % (12 * 4 ** D)
+                    theta, phi = hp.pix2ang(2 ** D, p_, nest=True)
+                    pts.append((math.degrees(phi), 90.0 - math.degrees(theta)))
+                    expect.append(p_ in self.model)
                 form = op.get("form", "vector")
                 ras = np.array([p[0] for p in pts])
                 decs = np.array([p[1] for p in pts])
